@@ -119,6 +119,51 @@ type ownCtx struct {
 	fn     *ssa.Function
 	params []own
 	free   []own
+	// ident[i]: parameter i is the goroutine's own partition key or element itself (the range key / element it was
+	// started for, handed on unchanged) - not merely something derived from it, which two goroutines may share
+	ident []bool
+}
+
+// isIdent: v is, unchanged, a parameter that carries the goroutine's own key or element.
+func (a *ownAnalysis) isIdent(x *ownCtx, v ssa.Value, depth int) bool {
+	if depth > 6 || v == nil {
+		return false
+	}
+	switch t := v.(type) {
+	case *ssa.Parameter:
+		for i, p := range x.fn.Params {
+			if p == t && i < len(x.ident) {
+				return x.ident[i]
+			}
+		}
+		return false
+	case *ssa.MakeInterface:
+		return a.isIdent(x, t.X, depth+1)
+	case *ssa.ChangeType:
+		return a.isIdent(x, t.X, depth+1)
+	case *ssa.ChangeInterface:
+		return a.isIdent(x, t.X, depth+1)
+	case *ssa.Phi:
+		for _, e := range t.Edges {
+			if !a.isIdent(x, e, depth+1) {
+				return false
+			}
+		}
+		return len(t.Edges) > 0
+	case *ssa.UnOp:
+		if t.Op == token.MUL {
+			if al := rootAlloc(t.X); al != nil {
+				vals := storedInto(al)
+				for _, sv := range vals {
+					if !a.isIdent(x, sv, depth+1) {
+						return false
+					}
+				}
+				return len(vals) > 0
+			}
+		}
+	}
+	return false
 }
 
 // classOf: ownership class of the storage a pointer-like value (pointer, slice, map, interface holding one) refers to.
@@ -292,7 +337,9 @@ func (a *ownAnalysis) classVal(x *ownCtx, v ssa.Value, visiting map[ssa.Value]bo
 			}
 		}
 		if keyIdx >= 0 && keyIdx < len(com.Args) {
-			if k := rec(com.Args[keyIdx]); k == ownPrivate || k == ownKeyPart {
+			// the entry under the goroutine's own key belongs to it; an entry under a key that is merely derived from
+			// what it was given (a type, a computed text) may be another goroutine's entry as well
+			if k := rec(com.Args[keyIdx]); (k == ownPrivate || k == ownKeyPart) && a.isIdent(x, com.Args[keyIdx], 0) {
 				return ownKeyPart
 			}
 			return ownShared
@@ -367,7 +414,7 @@ func (a *ownAnalysis) analyze(x *ownCtx, depth int) {
 	if x.fn == nil || x.fn.Blocks == nil || !a.c.InScope(x.fn) || depth > 10 {
 		return
 	}
-	key := fmt.Sprint(x.fn.String(), x.params, x.free)
+	key := fmt.Sprint(x.fn.String(), x.params, x.free, x.ident)
 	if a.memo[key] {
 		return
 	}
@@ -412,6 +459,13 @@ func (a *ownAnalysis) analyze(x *ownCtx, depth int) {
 				if bi, ok := com.Value.(*ssa.Builtin); ok {
 					if bi.Name() == "delete" || bi.Name() == "copy" {
 						record(in, com.Args[0], bi.Name())
+					}
+					if bi.Name() == "append" && len(com.Args) > 0 && a.classOf(x, com.Args[0], 0) == ownShared {
+						// appending to a slice that others can reach writes into its spare capacity (two appenders
+						// starting from the same slice write the same slot)
+						if k, isK := com.Args[0].(*ssa.Const); !isK || !k.IsNil() {
+							record(in, com.Args[0], "append")
+						}
 					}
 					continue
 				}
@@ -458,9 +512,11 @@ func (a *ownAnalysis) analyze(x *ownCtx, depth int) {
 					nx := &ownCtx{fn: cal}
 					if com.IsInvoke() {
 						nx.params = append(nx.params, a.classOf(x, com.Value, 0))
+						nx.ident = append(nx.ident, false)
 					}
 					for _, arg := range com.Args {
 						nx.params = append(nx.params, a.classOf(x, arg, 0))
+						nx.ident = append(nx.ident, a.isIdent(x, arg, 0))
 					}
 					for len(nx.params) < len(cal.Params) {
 						nx.params = append(nx.params, ownShared)
@@ -869,6 +925,7 @@ func c20(c *core.Ctx, r *core.Report) {
 				}
 			}
 			x.params = append(x.params, cl)
+			x.ident = append(x.ident, cl == ownPrivate)
 		}
 		for range body.FreeVars {
 			x.free = append(x.free, ownShared)
@@ -880,6 +937,7 @@ func c20(c *core.Ctx, r *core.Report) {
 			nx := &ownCtx{fn: ps.payload}
 			for _, arg := range ps.call.Common().Args {
 				nx.params = append(nx.params, a.classOf(x, arg, 0))
+				nx.ident = append(nx.ident, a.isIdent(x, arg, 0))
 			}
 			for len(nx.params) < len(ps.payload.Params) {
 				nx.params = append(nx.params, ownShared)
